@@ -117,7 +117,7 @@ def run_case(case, ctx):
                 continue
             raw = share_from(by_state[stt], sh, home[sh])
             if stt == "corrupt":
-                tmp = os.path.join(ctx.tmp, "case", "tmpshare")
+                tmp = os.path.join(g.basedir, "tmpshare")
                 open(tmp, "wb").write(raw)
                 a, b = mut_share.parse(tmp)["fields"]["share_data"]
                 mut_share.flip(tmp, a + (16 if fmt == "mdmf" and b - a > 16 else 0), 0x10)
